@@ -19,7 +19,10 @@ for d in sorted(glob.glob('/verif/seeded/*')):
     und=[l for l in lines if l.startswith('UNDECIDED')]
     if m.get('detected'):
         det+=1
-        res='VIOLATION'+(' (counterexample replayed natively)' if replayed else '')+': '+', '.join(obl[:3])
+        ded=[o for o in obl if not o.split('/')[0].endswith('_w')]
+        if ded:
+            detded=globals().get('detded',0)+1; globals()['detded']=detded
+        res='VIOLATION'+(' (counterexample replayed natively)' if replayed else '')+': '+', '.join((ded or obl)[:3])+('' if ded else ' [witness search only]')
     elif und:
         res='undecided (exit 2): '+und[0].split(': ',1)[-1][:110]
     else:
@@ -28,6 +31,6 @@ for d in sorted(glob.glob('/verif/seeded/*')):
 hdr='| change | property | result of `./check` with the change applied |\n|---|---|---|\n'
 a=s.index('| change | property | result of `./check` with the change applied |')
 b=s.index('\nMisses and why:')
-s=s[:a]+hdr+'\n'.join(rows)+'\n\n'+('Detected: %d of %d confirmed seeded changes.\n' % (det,tot))+s[b:]
+s=s[:a]+hdr+'\n'.join(rows)+'\n\n'+('Detected: %d of %d confirmed seeded changes (%d by a failing obligation of a deductive unit, the others only by the witness search behind them).\n' % (det,tot,globals().get('detded',0)))+s[b:]
 open(p,'w').write(s)
 print('detected %d of %d' % (det,tot))
